@@ -12,10 +12,13 @@ import (
 	"fmt"
 	"io/fs"
 	"os"
+	"os/exec"
 	"path/filepath"
 	"sort"
+	"strconv"
 	"strings"
 	"sync"
+	"sync/atomic"
 	"time"
 	_ "unsafe"
 
@@ -436,10 +439,97 @@ func spaces(tier string) []kit.Space {
 		},
 		Describe: func(i uint64) any { return map[string]any{"source": srcs[i].name, "goroutines": 8, "rounds": "4 (60 for synthetic sources)"} },
 	})
+	// race companion: the same concurrent builds in a -race build of this very
+	// binary (.build/C30race, made by run.sh), free running. The race detector
+	// reports every pair of conflicting accesses that are not ordered by
+	// happens-before in the execution it sees, so state shared between two
+	// builds is found without having to hit the corrupting interleaving.
+	sps = append(sps, kit.Space{
+		Name: "concurrent-builds-race(companion)",
+		Size: 2,
+		Eval: func(i uint64) kit.Outcome {
+			bin := "/verif/.build/C30race"
+			if _, err := os.Stat(bin); err != nil {
+				return kit.Outcome{OK: true, Class: "race-binary-missing"}
+			}
+			cmd := exec.Command(bin, "--race-companion", fmt.Sprint(i))
+			cmd.Env = append(os.Environ(), "GORACE=halt_on_error=1 exitcode=66")
+			outb, err := cmd.CombinedOutput()
+			if err == nil {
+				return kit.Outcome{OK: true, Nontrivial: true, Class: "no-race", Ops: 48}
+			}
+			out := string(outb)
+			if ee, ok := err.(*exec.ExitError); ok && ee.ExitCode() == 66 && strings.Contains(out, "DATA RACE") {
+				return kit.Outcome{Key: "concurrent-builds-race|" + raceFrame(out), Nontrivial: true,
+					Detail: "two concurrent builds (8 goroutines, sources built alternately) touch the same memory without synchronisation:\n" + out}
+			}
+			if strings.Contains(out, "C30-RACE-COMPANION-DIFF") {
+				return kit.Outcome{Key: "concurrent-builds-differ|race-build", Nontrivial: true, Detail: out}
+			}
+			return kit.Outcome{Key: "harness|race-companion-failed", Detail: fmt.Sprint(err) + "\n" + out}
+		},
+		Describe: func(i uint64) any {
+			return map[string]any{"binary": ".build/C30race --race-companion", "first": i, "goroutines": 8, "rounds": 6}
+		},
+	})
 	return sps
 }
 
+// raceFrame is the first frame of the race report that lies in the repository.
+func raceFrame(out string) string {
+	lines := strings.Split(out, "\n")
+	for i, l := range lines {
+		l = strings.TrimSpace(l)
+		if strings.HasPrefix(l, "github.com/open2b/scriggo") && i+1 < len(lines) && strings.Contains(lines[i+1], "/repo/") {
+			if k := strings.Index(l, "("); k > 0 && !strings.Contains(l[:k], ".func") {
+				l = l[:k]
+			}
+			return strings.TrimPrefix(l, "github.com/open2b/scriggo/")
+		}
+	}
+	return "unknown-frame"
+}
+
+// raceCompanion is the body of `C30race --race-companion i`.
+func raceCompanion(first int) {
+	srcs := synthetic()
+	base := make([]string, len(srcs))
+	for k, s := range srcs {
+		fp, err := build(s)
+		if err != nil {
+			fmt.Fprintln(os.Stderr, "C30: own source does not build:", err)
+			os.Exit(2)
+		}
+		base[k] = fp
+	}
+	var wg sync.WaitGroup
+	var bad atomic.Value
+	for g := 0; g < 8; g++ {
+		wg.Add(1)
+		go func(g int) {
+			defer wg.Done()
+			for r := 0; r < 6; r++ {
+				k := (first + g + r) % len(srcs)
+				fp, err := build(srcs[k])
+				if err != nil || fp != base[k] {
+					bad.Store(fmt.Sprintf("C30-RACE-COMPANION-DIFF source %s: err=%v\n%s", srcs[k].name, err, firstDiff(base[k], fp)))
+				}
+			}
+		}(g)
+	}
+	wg.Wait()
+	if v := bad.Load(); v != nil {
+		fmt.Fprintln(os.Stderr, v)
+		os.Exit(3)
+	}
+}
+
 func main() {
+	if len(os.Args) == 3 && os.Args[1] == "--race-companion" {
+		n, _ := strconv.Atoi(os.Args[2])
+		raceCompanion(n)
+		return
+	}
 	kit.Main(&kit.Check{
 		ID:       "C30",
 		Level:    "model_checking",
